@@ -371,6 +371,8 @@ class Impl(object):
             return self.call(go)
         if op == 65:
             return self.call(lambda: H.lru_dirname(a[0]))
+        if op == 66:
+            return self.call(lambda: [H.base4_append(a[0], a[1]), [int(c) for c in H.int_to_base4(a[0])]])
         return Crash("unknown opcode %r" % op)
 
 
@@ -396,6 +398,8 @@ def _interleave(self, specs, sched):
                 gens.append(t.index_batch_crawl_iter(data, 1))
             elif sp[0] == 1:
                 gens.append(t.add_webentity_creation_rule_iter(sp[1], rule_regex(sp[2])))
+            elif sp[0] == 3:
+                gens.append(t.get_webentities_links_iter(out=bool(sp[1]), include_auto=bool(sp[2])))
             else:
                 gens.append(t.get_webentity_pages_iter(sp[1], list(sp[2])))
             res.append(None)
@@ -433,6 +437,12 @@ def _interleave(self, specs, sched):
                 out.append([1, r])
             elif sp[0] in (0, 1):
                 out.append([1, self.report(r)])
+            elif sp[0] == 3:
+                g = []
+                for src, cnt in r.items():
+                    for k, v in cnt.items():
+                        g.append([src, 1, 0, v] if k == "pages_crawled" else [src, 2, 0, v] if k == "pages_uncrawled" else [src, 0, k, v])
+                out.append([1, g])
             else:
                 out.append([1, [[p["lru"], _b(p["crawled"])] for p in r]])
         return out
